@@ -45,7 +45,8 @@ const (
 func (t *htmlTemplate) Execute(w io.Writer, data any) error {
 	scope := exp.NewScope(data)
 	scope = exp.Combine(scope, t.manager.globalScope)
-	return t.execute(t.node, w, scope, nil)
+	// 每次执行使用独立的状态(currentAttrs/nodeCondition), 这样同一个模板实例可以并发执行, 且结果与之前的执行无关
+	return NewTemplate(t.manager, t.name, t.node).execute(t.node, w, scope, nil)
 }
 
 // executeOption 执行模板的参数
